@@ -672,12 +672,16 @@ func (obj *SparseIntMatrix) JointIterator(b ConstMatrix) MatrixJointIterator {
   return obj.JOINT_ITERATOR(b)
 }
 func (obj *SparseIntMatrix) ITERATOR() *SparseIntMatrixIterator {
-  r := SparseIntMatrixIterator{*obj.values.ITERATOR(), obj}
+  // start at the first element of the (possibly sliced) matrix
+  k := obj.rowOffset*obj.colMax + obj.colOffset
+  r := SparseIntMatrixIterator{*obj.values.ITERATOR_FROM(k), obj}
+  r.clip()
   return &r
 }
 func (obj *SparseIntMatrix) ITERATOR_FROM(i, j int) *SparseIntMatrixIterator {
   k := obj.index(i, j)
   r := SparseIntMatrixIterator{*obj.values.ITERATOR_FROM(k), obj}
+  r.clip()
   return &r
 }
 func (obj *SparseIntMatrix) JOINT_ITERATOR(b ConstMatrix) *SparseIntMatrixJointIterator {
@@ -698,6 +702,28 @@ type SparseIntMatrixIterator struct {
 }
 func (obj *SparseIntMatrixIterator) Index() (int, int) {
   return obj.m.ij(obj.SparseIntVectorIterator.Index())
+}
+func (obj *SparseIntMatrixIterator) Ok() bool {
+  if !obj.SparseIntVectorIterator.Ok() {
+    return false
+  }
+  // stop after the last row of a sliced matrix
+  i, _ := obj.Index()
+  return i < obj.m.rows
+}
+func (obj *SparseIntMatrixIterator) Next() {
+  obj.SparseIntVectorIterator.Next()
+  obj.clip()
+}
+// skip entries of the storage that are not within the columns of a
+// sliced matrix
+func (obj *SparseIntMatrixIterator) clip() {
+  for obj.Ok() {
+    if _, j := obj.Index(); j >= 0 && j < obj.m.cols {
+      break
+    }
+    obj.SparseIntVectorIterator.Next()
+  }
 }
 func (obj *SparseIntMatrixIterator) Clone() *SparseIntMatrixIterator {
   return &SparseIntMatrixIterator{*obj.SparseIntVectorIterator.Clone(), obj.m}
